@@ -77,6 +77,9 @@ fn alpha(cfg: &Cfg) -> Vec<Op> {
     // save it there while the region is still the full screen, shrink the region, restore
     v.push(c(Decsc));
     v.push(c(Decrc));
+    // wrap-pending with auto-wrap switched off afterwards is still "on the last column" (R1)
+    v.push(c(DecRst(vec![7])));
+    v.push(c(DecSet(vec![7])));
     v.push(c(Seq(vec![DecSet(vec![6]), Cup(Some(99), Some(2)), Decsc, Decstbm(Some(1), Some(rows.saturating_sub(1))), Decrc])));
     v.push(c(Seq(vec![DecSet(vec![6]), Cup(Some(1), Some(2)), Decsc, Decstbm(Some(2), Some(rows)), Decrc])));
     v.push(c(Seq(vec![Cup(Some(99), Some(1)), Decsc, Decstbm(Some(1), Some(rows.saturating_sub(1))), Decrc])));
